@@ -36,6 +36,7 @@ from .execution import (
     record_cancel,
     record_failure,
     record_success,
+    settle_if_unsettled,
 )
 from .retry import AsyncRetry
 from .types import (
@@ -121,6 +122,8 @@ class AsyncPolicy:
         except Exception as exc:
             self._handle_exception_call(ctx, exc, on_attempt_end)
             raise
+        finally:
+            settle_if_unsettled(ctx)
 
     async def _call_without_retry(
         self,
@@ -268,19 +271,26 @@ class AsyncPolicy:
         """Execute with retry and record result with breaker."""
         retry = self.retry
         assert retry is not None
-        outcome = await retry.execute(
-            func,
-            on_metric=on_metric,
-            on_log=on_log,
-            operation=operation,
-            abort_if=abort_if,
-            sleep=sleep,
-            before_sleep=before_sleep,
-            sleeper=sleeper,
-            on_attempt_start=on_attempt_start,
-            on_attempt_end=on_attempt_end,
-            capture_timeline=capture_timeline,
-        )
+        try:
+            outcome = await retry.execute(
+                func,
+                on_metric=on_metric,
+                on_log=on_log,
+                operation=operation,
+                abort_if=abort_if,
+                sleep=sleep,
+                before_sleep=before_sleep,
+                sleeper=sleeper,
+                on_attempt_start=on_attempt_start,
+                on_attempt_end=on_attempt_end,
+                capture_timeline=capture_timeline,
+            )
+        except RetryExhaustedError as exc:
+            record_failure(ctx, exc.last_class or ErrorClass.UNKNOWN)
+            raise
+        except BaseException:
+            record_cancel(ctx)
+            raise
 
         # Record with circuit breaker
         if ctx.breaker is not None:
@@ -346,6 +356,10 @@ class AsyncPolicy:
                     )
                 )
             return build_exception_outcome_no_retry(ctx, exc, klass)
+
+        except BaseException:
+            record_cancel(ctx)
+            raise
 
         # Success
         record_success(ctx)
